@@ -40,8 +40,10 @@ import (
 type ntree struct {
 	Kind   string   `json:"kind"` // static and or nand not
 	Data   []uint32 `json:"data,omitempty"`
-	L, R   *ntree   `json:"l,omitempty"`
-	Lo, Hi uint32   `json:"lo,omitempty"`
+	L      *ntree   `json:"l,omitempty"`
+	R      *ntree   `json:"r,omitempty"`
+	Lo     uint32   `json:"lo"`
+	Hi     uint32   `json:"hi"`
 }
 
 func nlist(xs []uint32) string {
@@ -216,10 +218,17 @@ func foldCase(w *casefile.Writer, r *rng.R) {
 	k := r.Range(0, 9)
 	universe := uint32(r.Range(3, 30))
 	lists := make([][]uint32, k)
+	for i := range lists {
+		lists[i] = shapedPosting(r, universe)
+	}
+	execFold(w, rev, lists)
+}
+
+func execFold(w *casefile.Writer, rev bool, lists [][]uint32) {
+	k := len(lists)
 	nodes := make([]node.Node, k)
 	parts := make([]string, k)
 	for i := range lists {
-		lists[i] = shapedPosting(r, universe)
 		nodes[i] = node.NewStatic(lists[i], rev)
 		parts[i] = nlist(lists[i])
 	}
@@ -334,10 +343,11 @@ func genCorpus(r *rng.R, sh corpusShape) []doc {
 }
 
 type expr struct {
-	Kind string // lit prefix suffix not and or
-	F    int
-	V    string
-	A, B *expr
+	Kind string `json:"kind"` // lit prefix suffix not and or
+	F    int    `json:"f"`
+	V    string `json:"v"`
+	A    *expr  `json:"a,omitempty"`
+	B    *expr  `json:"b,omitempty"`
 }
 
 func (e *expr) coq() string {
@@ -388,9 +398,12 @@ func (e *expr) has(kind string) bool {
 
 func randExpr(r *rng.R, depth int, sh corpusShape) *expr {
 	if depth == 0 || r.Chance(1, 4) {
-		f := r.Intn(nFields + 1) // field nFields is mapped but holds no token
+		f := r.Intn(nFields)
+		if r.Chance(1, 10) {
+			f = nFields // mapped, but holds no token
+		}
 		switch r.Intn(8) {
-		case 0:
+		case 0, 2:
 			l := r.Intn(2)
 			v := ""
 			if l > 0 {
@@ -473,12 +486,12 @@ type request struct {
 	Reverse bool   `json:"asc_order"`
 	Limit   int    `json:"limit"`
 	WT      bool   `json:"with_total"`
-	e       *expr
+	E       *expr  `json:"expr"`
 }
 
 func randRequest(r *rng.R, sh corpusShape, depthMax int) request {
 	e := randExpr(r, r.Range(0, depthMax), sh)
-	q := request{Text: e.text(), e: e, Reverse: r.Bool(), WT: r.Chance(1, 2)}
+	q := request{Text: e.text(), E: e, Reverse: r.Bool(), WT: r.Chance(1, 2)}
 	lo, hi := sh.midBase, sh.midBase+uint64(sh.midSpan)-1
 	pick := func() uint64 {
 		switch r.Intn(6) {
@@ -496,10 +509,10 @@ func randRequest(r *rng.R, sh corpusShape, depthMax int) request {
 		}
 		return lo + uint64(r.Intn(sh.midSpan))
 	}
-	switch r.Intn(4) {
-	case 0:
+	switch r.Intn(6) {
+	case 0, 1:
 		q.From, q.To = 0, math.MaxUint64
-	case 1:
+	case 2:
 		q.From, q.To = pick(), pick()
 	default:
 		a, b := pick(), pick()
@@ -566,6 +579,11 @@ func runCorpus(r *rng.R, tmp string, idx int, sh corpusShape, nreq, depthMax int
 	for i := range reqs {
 		reqs[i] = randRequest(r, sh, depthMax)
 	}
+	return execCorpus(tmp, idx, corpus, reqs, sh.bulks, mode)
+}
+
+func execCorpus(tmp string, idx int, corpus []doc, reqs []request, bulks int, mode string) (res searchResult) {
+	sh := corpusShape{bulks: bulks}
 	res.class = "search-" + mode
 	input := map[string]any{"mode": mode, "bulks": sh.bulks, "docs": corpus, "requests": reqs}
 	res.input = input
@@ -654,11 +672,11 @@ func runCorpus(r *rng.R, tmp string, idx int, sh corpusShape, nreq, depthMax int
 			a.IDs[i] = [2]uint64{uint64(x.ID.MID), uint64(x.ID.RID)}
 		}
 		answers = append(answers, a)
-		sqs = append(sqs, fmt.Sprintf("SQ %s\n       %s\n       %d %d %s %d %s %s %d", q.e.coq(), ast, q.From, q.To,
+		sqs = append(sqs, fmt.Sprintf("SQ %s\n       %s\n       %d %d %s %d %s %s %d", q.E.coq(), ast, q.From, q.To,
 			casefile.Bool(q.Reverse), q.Limit, casefile.Bool(q.WT), idsCoq(a.IDs), a.Total))
 		if len(a.IDs) > 0 {
 			res.counts = append(res.counts, "answer:nonempty")
-			if q.e.has("not") {
+			if q.E.has("not") {
 				res.counts = append(res.counts, "answer:nonempty-with-not")
 			}
 			if len(a.IDs) == q.Limit {
@@ -672,7 +690,7 @@ func runCorpus(r *rng.R, tmp string, idx int, sh corpusShape, nreq, depthMax int
 		} else {
 			res.counts = append(res.counts, "order:desc")
 		}
-		if len(a.IDs) > 0 && (q.e.has("and") || q.e.has("or") || q.e.has("not")) {
+		if len(a.IDs) > 0 && (q.E.has("and") || q.E.has("or") || q.E.has("not")) {
 			res.nontrivial = true
 		}
 		// borders of the same range on the same index (a few per corpus)
@@ -747,6 +765,7 @@ func main() {
 	seed := flag.Uint64("seed", 1, "")
 	tier := flag.String("tier", "quick", "")
 	out := flag.String("out", "", "")
+	replay := flag.String("replay", "", "")
 	flag.Parse()
 	if *out == "" {
 		fmt.Fprintln(os.Stderr, "need -out")
@@ -757,6 +776,13 @@ func main() {
 		panic(err)
 	}
 	logger.SetLevel(zapcore.FatalLevel)
+	if *replay != "" {
+		doReplay(w, *replay)
+		if err := w.Close(); err != nil {
+			panic(err)
+		}
+		return
+	}
 	r := rng.New(*seed)
 	nNode, nFold, nCorpus, nBig := 1500, 200, 150, 4
 	if *tier == "thorough" {
@@ -791,7 +817,7 @@ func main() {
 	jobs := make([]job, 0, nCorpus+nBig)
 	modes := []string{"active", "active", "sealed", "restarted"}
 	for i := 0; i < nCorpus+nBig; i++ {
-		sh := corpusShape{alphabet: "ab", maxLen: 2, maxToks: 4}
+		sh := corpusShape{alphabet: "ab", maxLen: 2, maxToks: 7}
 		big := i >= nCorpus
 		switch {
 		case big:
@@ -861,9 +887,83 @@ func main() {
 			w.Add(b.coq, "borders-"+jobs[i].mode, b.nontr, b.input, b.impl)
 		}
 	}
-	_ = json.Marshal
 	if err := w.Close(); err != nil {
 		panic(err)
+	}
+}
+
+// replay: re-run the input stored in a replay file written by the check
+func doReplay(w *casefile.Writer, path string) {
+	b, err := os.ReadFile(path)
+	if err != nil {
+		panic(err)
+	}
+	var rp struct {
+		Replay struct {
+			Case struct {
+				Class string          `json:"class"`
+				Input json.RawMessage `json:"input"`
+			} `json:"case"`
+			Input json.RawMessage `json:"input"`
+		} `json:"replay"`
+		Fingerprint string `json:"fingerprint"`
+	}
+	if err := json.Unmarshal(b, &rp); err != nil {
+		panic(err)
+	}
+	raw := rp.Replay.Case.Input
+	if raw == nil {
+		raw = rp.Replay.Input
+	}
+	var in struct {
+		Reverse  bool       `json:"reverse"`
+		Tree     *ntree     `json:"tree"`
+		Lists    [][]uint32 `json:"lists"`
+		Mode     string     `json:"mode"`
+		Bulks    int        `json:"bulks"`
+		Docs     []doc      `json:"docs"`
+		Requests []request  `json:"requests"`
+		Request  *request   `json:"request"`
+		From     *uint64    `json:"from"`
+		To       *uint64    `json:"to"`
+	}
+	if err := json.Unmarshal(raw, &in); err != nil {
+		panic(err)
+	}
+	switch {
+	case in.Tree != nil:
+		nodeCase(w, in.Tree, in.Reverse, "nodes")
+	case in.Lists != nil:
+		execFold(w, in.Reverse, in.Lists)
+	case in.Docs != nil:
+		tmp, err := os.MkdirTemp("", "verif-c02-")
+		if err != nil {
+			panic(err)
+		}
+		defer os.RemoveAll(tmp)
+		reqs := in.Requests
+		if in.Request != nil {
+			reqs = append(reqs, *in.Request)
+		}
+		if in.From != nil && in.To != nil && len(reqs) == 0 { // a borders case
+			reqs = []request{{Text: "f0:*", From: *in.From, To: *in.To, Limit: 1, E: &expr{Kind: "prefix"}}}
+		}
+		if in.Mode == "" {
+			in.Mode = "active"
+		}
+		res := execCorpus(tmp, 0, in.Docs, reqs, in.Bulks, in.Mode)
+		for _, v := range res.viol {
+			w.Violate(v.Fingerprint, v.What, v.Input)
+		}
+		if res.coq != "" {
+			w.Add(res.coq, res.class, res.nontrivial, res.input, res.impl)
+		}
+		for _, bc := range res.borders {
+			w.Add(bc.coq, "borders-"+in.Mode, bc.nontr, bc.input, bc.impl)
+		}
+	default:
+		fmt.Fprintln(os.Stderr, "replay: unrecognised input")
+		os.Exit(2)
 	}
 }
 
